@@ -435,6 +435,42 @@ func boundaries() []boundary {
 		sort.Slice(ws, func(i, j int) bool { return bytes.Compare(ws[i], ws[j]) < 0 })
 		return ws
 	}, false, true})
+	// more than 32768 / 65536 nodes WITH heavy sharing (dense random sets of short words over a small alphabet: the
+	// late layers of the automaton are shared by thousands of parents, so whatever node sits at an index such as 32768
+	// or 65536 is likely to have several parents and successors)
+	for _, sp := range [][3]int{{100000, 10, 5}, {250000, 11, 5}} {
+		sp := sp
+		bs = append(bs, boundary{fmt.Sprintf("%d-fixed-pseudo-random-words-of-length-%d-over-%d-letters(shared nodes beyond index 32768)", sp[0], sp[1], sp[2]), func() [][]byte {
+			rg := engine.NewRng(uint64(4242 + sp[0]))
+			seen := map[string]bool{}
+			var ws [][]byte
+			for len(ws) < sp[0] {
+				w := make([]byte, sp[1])
+				for i := range w {
+					w[i] = byte('a' + rg.Intn(sp[2]))
+				}
+				if !seen[string(w)] {
+					seen[string(w)] = true
+					ws = append(ws, w)
+				}
+			}
+			sort.Slice(ws, func(i, j int) bool { return bytes.Compare(ws[i], ws[j]) < 0 })
+			return ws
+		}, sp[0] > 100000, true})
+	}
+	// one very long chain (a x^L) that 121 short words enter at every depth within 60 nodes of node number 32768
+	// (65536 in thorough): whatever per-node bookkeeping changes at such an index meets a node with two parents there
+	for _, L := range []int{32768 + 60, 65536 + 60} {
+		L := L
+		bs = append(bs, boundary{fmt.Sprintf("chain-of-%d-nodes-entered-at-every-depth-near-its-end", L+1), func() [][]byte {
+			ws := [][]byte{append([]byte{'a'}, bytes.Repeat([]byte{'x'}, L)...)}
+			for t := 0; t <= 120; t++ {
+				ws = append(ws, append([]byte{'b', byte(t / 16), byte(t % 16)}, bytes.Repeat([]byte{'x'}, t)...))
+			}
+			ws = append(ws, []byte("cyyy"))
+			return ws
+		}, L > 40000, true})
+	}
 	// the same word counts with two levels of 256 children (GobEncode walks every path and takes seconds here: thorough)
 	bs = append(bs, boundary{"all-two-byte-words(65536 words)", allTwoByteWords, true, true})
 	// word counts 126..129 and 254..257 with small automata: k single letters below a prefix is covered by the fans; here k words a^i b
